@@ -81,6 +81,15 @@ def _eligible(callee, nested_in=None):
     return True
 
 
+def _fold_const(e):
+    """'S11'.lower() -> 's11' and the like (methods of string constants without arguments)"""
+    if isinstance(e, ast.Call) and isinstance(e.func, ast.Attribute) and isinstance(e.func.value, ast.Constant) and \
+            isinstance(e.func.value.value, str) and not e.args and not e.keywords and \
+            e.func.attr in ("lower", "upper", "strip", "capitalize", "title", "casefold"):
+        return ast.copy_location(ast.Constant(value=getattr(e.func.value.value, e.func.attr)()), e)
+    return e
+
+
 def _returns_outside_nested(fn):
     nested = [x for x in ast.walk(fn) if isinstance(x, (ast.FunctionDef, ast.Lambda)) and x is not fn]
     inner = {id(y) for x in nested for y in ast.walk(x)}
@@ -348,6 +357,25 @@ def inlined(prog, fi, depth=DEPTH, skip=()):
         return T().visit(st)
     node.body = expand_block(node.body, depth, frozenset([fi.key]))
     if changed[0]:
+        # {k(c): v(c) for c in (<literals>)} -> {k(c1): v(c1), ...} with constant string methods folded (a keyword dictionary
+        # built by a comprehension over the column names)
+        class _ExpandDictComp(ast.NodeTransformer):
+            def visit_DictComp(self, dc):
+                self.generic_visit(dc)
+                if len(dc.generators) != 1 or dc.generators[0].ifs or not isinstance(dc.generators[0].target, ast.Name):
+                    return dc
+                it_ = dc.generators[0].iter
+                if not (isinstance(it_, (ast.Tuple, ast.List)) and it_.elts and all(isinstance(x, ast.Constant) for x in it_.elts)):
+                    return dc
+                var = dc.generators[0].target.id
+                keys, vals = [], []
+                for c_ in it_.elts:
+                    k_ = _fold_const(subst_names(dc.key, {var: c_}))
+                    v_ = subst_names(dc.value, {var: c_})
+                    keys.append(k_)
+                    vals.append(v_)
+                return ast.copy_location(ast.Dict(keys=keys, values=vals), dc)
+        node = _ExpandDictComp().visit(node)
         # f(**{'a': x, 'b': y}) (a helper that returned the keyword dictionary) -> f(a=x, b=y)
         for c in ast.walk(node):
             if isinstance(c, ast.Call):
